@@ -18,7 +18,7 @@ HEADLINE = ['second_history_after_reset', 'simulations', 'snapshots', 'snapshot_
 
 def floors(tier):
     return {'snapshots': 1500, 'snapshot_cells': 15000, 'exports': 100, 'csv_cells': 100000, 'targets_grid': 300, 'targets_mid': 300, 'targets_random': 300,
-            'targets_end': 100, 'mixed_unit_histories': 30, 'second_history_after_reset': 15, 'set:subsets': 66, 'set:unit_values': 60, 'set:nontrivial': 100}
+            'targets_end': 100, 'mixed_unit_histories': 30, 'non_uniform_histories': 15, 'dotted_names': 50, 'second_history_after_reset': 15, 'set:subsets': 66, 'set:unit_values': 60, 'set:nontrivial': 100}
 
 
 def n_cases(tier):
@@ -40,7 +40,16 @@ def one(ctx, i):
     if mixed:
         u2 = rng.choice([u for u in SI.units('TimeInterval') if u != dt['u']])
         d2 = GEN.reexpress(dt, u2)
-        spec['schedule'].append({'op': 'run', 'dt': d2, 'T': GEN.reexpress(GEN.mulq(dt, rng.randint(3, 10)), u2)})
+        if rng.random() < 0.6:
+            # another step size: the recorded time axis is then not uniformly spaced
+            d2 = GEN.reexpress(GEN.Q('TimeInterval', dt['v'] * rng.choice([0.5, 2, 3, 0.25]), dt['u']), u2)
+            ctx.count('non_uniform_histories')
+        spec['schedule'].append({'op': 'run', 'dt': d2, 'T': GEN.reexpress(GEN.Q('TimeInterval', GEN.qsi(d2) * rng.randint(3, 10), 'sec'), u2)})
+    if i % 3 == 0:
+        # element names are free text: dots, spaces, dashes
+        for j_, e_ in enumerate(spec['chain']):
+            e_['name'] = f"{e_['name']}.{j_}" if j_ % 2 else f"{e_['name']} stage-{j_}.1"
+        ctx.count('dotted_names')
     if i % 4 == 2:
         GEN.add_const_rules(rng, spec)
     if i % 4 == 3:
